@@ -505,11 +505,11 @@ def random_config(rng, project):
 
     kw = {'disable': [], 'block': [], 'ignore': []}
     r = rng.random()
-    if r < 0.25:
+    if r < 0.22:
         kw['disable'] = keylist(rng.random() < 0.4)
-    elif r < 0.45:
+    elif r < 0.42:
         kw['block'] = keylist(rng.random() < 0.4)
-    elif r < 0.6:
+    elif r < 0.65:
         kw['ignore'] = keylist(False)
     expand = rng.random() > 0.08
     routines = []
@@ -524,7 +524,7 @@ def random_config(rng, project):
         else:
             k = p['name'] if uniq(p) and rng.random() < 0.6 else f"{p['mod']}#{p['name']}"
         opts = {}
-        what = rng.choice(['block', 'disable', 'ignore', 'expand', 'block', 'ignore', 'role', 'empty'])
+        what = rng.choice(['block', 'disable', 'ignore', 'expand', 'block', 'ignore', 'ignore', 'role', 'empty'])
         if what == 'expand':
             opts['expand'] = not expand if rng.random() < 0.8 else expand
         elif what in ('block', 'disable'):
